@@ -72,8 +72,9 @@ T_Rep == /\ Ev("srvrep")
 \* C04 is judged on every element as it arrives, independently of the reference
 T_El == /\ Ev("cliel")
         /\ els' = Append(els, E)
-        /\ LET certok == \E i \in 1..Len(reps) : reps[i].stage = "cert" /\ N!CertOK(cf.tls, reps[i].v)
-               bad == E.k \in Sensitive /\ ~cf.insecure /\ ~(E.enc /\ certok) /\ ~(cf.ws /\ cf.wss)
+        /\ LET certok == \E i \in 1..Len(reps) : \/ (reps[i].stage = "cert" /\ N!CertOK(cf.tls, reps[i].v))
+                                                  \/ (reps[i].stage = "wsdial" /\ reps[i].v = "valid")
+               bad == E.k \in Sensitive /\ ~cf.insecure /\ ~(E.enc /\ certok)
            IN verdicts' = IF bad /\ ~dead
                           THEN AddV(<<V("C04", IF E.enc THEN "nothing-sensitive-over-tls-with-an-invalid-certificate" ELSE "nothing-sensitive-in-clear-text",
                                         E.k \o "/conn" \o (IF n > 1 THEN "N" ELSE "1") \o "/" \o cf.tls \o "/" \o StageSig(0),
@@ -91,7 +92,7 @@ JudgeRet(e) ==
         alts == <<cf, [cf EXCEPT !.sessalways = TRUE]>> \o
                 (IF cf.insecure THEN <<[cf EXCEPT !.skiptls = TRUE], [cf EXCEPT !.skiptls = TRUE, !.sessalways = TRUE]>> ELSE <<>>) \o
                 (IF smdown THEN <<[cf EXCEPT !.sm = FALSE], [cf EXCEPT !.sm = FALSE, !.sessalways = TRUE]>> ELSE <<>>)
-        folds == [i \in 1..Len(alts) |-> Fold(N!NewConn(n), keep, alts[i], reps)]
+        folds == [i \in 1..Len(alts) |-> Fold(N!NewConnCf(n, alts[i]), keep, alts[i], reps)]
         match == {i \in 1..Len(alts) : Kinds(folds[i].c.wire) = obs}
         f    == IF match = {} THEN folds[1] ELSE folds[CHOOSE i \in match : \A j \in match : i <= j]
         c    == f.c
